@@ -70,17 +70,39 @@ KeyRoots == {Obj(<<SC("@t0", One)>>, <<>>), Obj(<<P(Kr, Ref(<<"@t0">>, <<>>)), S
              Obj(<<P(Ka, Lit(NumD(N1), <<R("or", [t |-> "list", items |-> <<[t |-> "set", rules |-> <<R("type", TRef("@t0")), R("nullable", BV(TRUE))>>], IdV("integer")>>])>>)),
                    P(Kb, Lit(NumD(N1), <<R("or", [t |-> "list", items |-> <<[t |-> "set", rules |-> <<R("type", TRef("@t1")), R("nullable", BV(TRUE))>>], IdV("string")>>])>>))>>, <<>>)}
 DeepRoots == {Obj(<<P(Kr, Ref(<<"@t0">>, <<>>)), P(Kx, Ref(<<"@t1">>, <<>>))>>, <<>>)}
-Roots == IF Level = 3 THEN DeepRoots ELSE IF Level = 4 THEN KeyRoots
+\* Level 5: inheritance graphs (a parent inherited twice, along two paths, a true allOf cycle) and key-shortcut properties as edges,
+\* over a fixed set of types; the key type is a proper string type, so the verdict is definite
+AllOf1(x) == R("allOf", TRef(x))
+L5Types == << [name |-> "@p",  n |-> Obj(<<P(Kp, One)>>, <<>>)],
+              [name |-> "@b",  n |-> Obj(<<P(Kb, One)>>, <<AllOf1("@p")>>)],
+              [name |-> "@e",  n |-> Obj(<<P(Kd, One)>>, <<AllOf1("@p")>>)],
+              [name |-> "@d",  n |-> Obj(<<>>, <<R("allOf", [t |-> "list", items |-> <<TRef("@b")>>])>>)],
+              [name |-> "@c1", n |-> Obj(<<P(Ka, One)>>, <<AllOf1("@c2")>>)],
+              [name |-> "@c2", n |-> Obj(<<P(Kb, One)>>, <<AllOf1("@c1")>>)],
+              [name |-> "@ks", n |-> StrLit],
+              [name |-> "@r",  n |-> Obj(<<SC("@ks", Ref(<<"@r">>, <<>>))>>, <<>>)],
+              [name |-> "@ro", n |-> Obj(<<SC("@ks", Ref(<<"@ro">>, <<OptR>>))>>, <<>>)] >>
+L5Env(names) == [types |-> SelectSeq(L5Types, LAMBDA t : t.name \in names), enums |-> <<>>]
+\* a case of this level: the root and the types it is given (a cycle among the given types is an error wherever it lies)
+L5Cases == { [root |-> Obj(<<P(Kx, Obj(<<P(Ka, One)>>, <<AllOf1("@p")>>)), P(Kr, Obj(<<P(Kb, One)>>, <<AllOf1("@p")>>))>>, <<>>), names |-> {"@p"}],
+             [root |-> Obj(<<P(Kx, Ref(<<"@b">>, <<>>)), P(Kr, Ref(<<"@e">>, <<>>))>>, <<>>), names |-> {"@p", "@b", "@e"}],
+             [root |-> Obj(<<P(Kx, Ref(<<"@d">>, <<>>)), P(Kr, Ref(<<"@e">>, <<>>)), P(Ka, Ref(<<"@b">>, <<OptR>>))>>, <<>>), names |-> {"@p", "@b", "@e", "@d"}],
+             [root |-> Ref(<<"@c1">>, <<>>), names |-> {"@c1", "@c2"}],
+             [root |-> Obj(<<P(Ka, Ref(<<"@r">>, <<>>))>>, <<>>), names |-> {"@ks", "@r"}],
+             [root |-> Obj(<<P(Ka, Ref(<<"@ro">>, <<>>))>>, <<>>), names |-> {"@ks", "@ro"}],
+             [root |-> Obj(<<SC("@ks", Ref(<<"@b">>, <<>>)), P(Ka, Ref(<<"@e">>, <<OptR>>))>>, <<>>), names |-> {"@ks", "@p", "@b", "@e"}] }
+Roots == IF Level = 5 THEN {c.root : c \in L5Cases} ELSE IF Level = 3 THEN DeepRoots ELSE IF Level = 4 THEN KeyRoots
          ELSE {Ref(<<"@t0">>, <<>>), Obj(<<P(Kr, Ref(<<"@t0">>, <<>>)), P(Kx, Ref(<<TName(NTypes - 1)>>, <<OptR>>))>>, <<>>)}
               \cup (IF Level = 1 /\ NTypes = 2 THEN {Ref(<<"@t0", "@t1">>, <<>>), Arr(<<Ref(<<"@t1", "@t0">>, <<>>)>>, <<>>)} ELSE {})
 
 VARIABLES bodies, root
-Init == bodies \in [0..(NTypes - 1) -> IF Level = 3 THEN DeepBodies ELSE IF Level = 4 THEN KeyBodies ELSE Bodies] /\ root \in Roots
+Init == bodies \in [0..(NTypes - 1) -> IF Level = 5 THEN {One} ELSE IF Level = 3 THEN DeepBodies ELSE IF Level = 4 THEN KeyBodies ELSE Bodies] /\ root \in Roots
 Next == UNCHANGED <<bodies, root>>
 Spec == Init /\ [][Next]_<<bodies, root>>
-Env == [types |-> [i \in 1..NTypes |-> [name |-> TName(i - 1), n |-> bodies[i - 1]]], enums |-> <<>>]
+Env == IF Level = 5 THEN L5Env((CHOOSE c \in L5Cases : c.root = root).names)
+       ELSE [types |-> [i \in 1..NTypes |-> [name |-> TName(i - 1), n |-> bodies[i - 1]]], enums |-> <<>>]
 \* (a key type that is not a string is an error of its own, which may be reported before a missing name)
-UsesNullable == \E i \in DOMAIN bodies : bodies[i] \in NullableBodies
+UsesNullable == Level # 5 /\ \E i \in DOMAIN bodies : bodies[i] \in NullableBodies
 Want == IF Level = 4 \/ UsesNullable THEN "unspec" ELSE GraphVerdict(Env, root)
 Emit == PrintT("@@CASE " \o ToJson([schema |-> root, env |-> Env, want |-> Want, opt |-> KeysOptDefault,
                                    missing |-> SetToSeq(Missing(Env, root)), used |-> SetToSeq(Refs(root)),
@@ -92,7 +114,7 @@ ExampleValid == (Level \in {1, 2, 3} /\ ~UsesNullable /\ GraphVerdict(Env, root)
                   LET ex == X!Example(Env, root) IN ex # X!NIL /\ Verdict(Env, root, ex, KeysOptDefault) = "accept"
 \* under the mesh protocol the implementation-shaped search agrees with the requirement (where that is specified)
 MeshModelAgrees == (~UsesNullable /\ GraphVerdict(Env, root) \in {"accept", "reject"}) =>
-                     ((I!ImplRejectsRecursion(Env, root, TRUE) \/ I!Pred1303(Env, root)) <=> (GraphVerdict(Env, root) = "reject" \/ I!Pred1303(Env, root)))
+                     ((I!ImplRejectsRecursion(Env, root, TRUE) \/ I!AllOfCycle(Env) \/ I!Pred1303(Env, root)) <=> (GraphVerdict(Env, root) = "reject" \/ I!Pred1303(Env, root)))
 \* theorem of the requirement: whatever has an inhabitant is accepted by Sem for SOME document is not checked here (documents unbounded);
 \* instead: inhabitation is monotone - adding an optional marker never turns an accepted graph into a rejected one (spot theorem, Level 1)
 ====================================================================================
